@@ -656,7 +656,8 @@ def real_cases(rng, n, fail_rate):
                 c["ifail"] = rng.randint(0, N)
             else:
                 c["tfail"] = [rng.randint(0, N - 1)]
-                c["exc"] = rng.choice(["TaskFail", "TaskFail", "SystemExit", "KeyboardInterrupt", "BaseFail", "UnpicklableExc", "UnpicklableRet"])
+                c["exc"] = rng.choice(["TaskFail", "TaskFail", "SystemExit", "KeyboardInterrupt", "BaseFail", "UnpicklableExc", "UnpicklableRet"]
+                                      + (["Finicky"] * 2 if backend in ("threading", "sequential") else []))
         if backend == "multiprocessing" and rng.random() < 0.6:
             c["init"] = rng.randint(1, 9)       # a backend option (pool initializer) that every call must see
             c["n_jobs"] = c["n_jobs"] if c["n_jobs"] > 0 else 2      # (a real pool: one worker means no pool at all)
@@ -724,6 +725,10 @@ def judge_real(c, r):
                 # the value cannot travel back from a worker process: any error will do there, none in threads
                 if c["backend"] in ("threading", "sequential"):
                     bad.append(("C04", "real backend %s: a task returned an unpicklable value, call raised %s%s" % (c["backend"], name, args)))
+            elif tf and jf is None and c.get("exc") == "Finicky":
+                if name != "Finicky" or args[:1] not in [["%d: task failed" % i] for i in tf]:
+                    bad.append(("C04", "real backend %s: the task raised Finicky(%s, 'task failed') (a user exception whose constructor "
+                                       "does not take its .args back), the call raised %s%s" % (c["backend"], tf, name, args)))
             elif tf and jf is None and c.get("exc") == "UnpicklableArg":
                 pass        # (process backends only) the task could not be handed over: any error will do
             elif tf and jf is None and c.get("exc") == "UnpicklableExc" and (c["backend"] not in ("threading", "sequential") or name != "TaskFail"):
@@ -761,6 +766,8 @@ def fixed_real_cases():
     for backend in ("multiprocessing", "loky", "threading"):
         for exc in ("UnpicklableExc", "UnpicklableRet"):
             out.append(dict(base, backend=backend, n_jobs=2, exc=exc, with_block=(exc == "UnpicklableRet")))
+    for backend, nj in (("threading", 2), ("threading", 3), ("sequential", 1)):
+        out.append(dict(base, backend=backend, n_jobs=nj, exc="Finicky"))
     # a task fails at once while the others take their time: the input must not be consumed much further (C09), whatever
     # the way the failure reaches the caller (raised in the worker, reported by the pool's error callback, refused at
     # hand-over)
